@@ -289,11 +289,31 @@ Definition op_mod_us (this n : Z) : Z := to_i16 (op_mod_ul this (to_u64 n)).
    < 2^15, is converted back by operator int16_t) *)
 Definition op_mod_Ts (this n : Z) : Z := to_i16 (op_mod_I this n).
 
-(* double Integer::operator % (const double l) const, restricted to integer-valued l with |l| <= 2^53
-   (the double is then the integer it carries; static_cast<uint64_t> and the int64_t -> double
-   conversion of a result of magnitude < 2^53 are exact) *)
-Definition op_mod_d (this l : Z) : Z :=
-  if 0 <? l then op_mod_ul this (to_u64 l) else op_mod_ul this (to_u64 (- l)).
+(* ... and at XXX = float, for an integer-valued float l (|l| <= 2^24): Integer(float) goes through Integer(double),
+   the remainder (|r| < 2^24) is converted back exactly by operator float *)
+Definition op_mod_Tf (this l : Z) : Z := op_mod_I this l.
+
+(* int64_t -> double (static_cast<double>): round to nearest, ties to even, 53-bit significand *)
+Definition round53 (z : Z) : Z :=
+  let a := Z.abs z in
+  if a <? 9007199254740992 then z else
+  let k := Z.log2 a - 52 in
+  let q := a / 2 ^ k in
+  let r := a mod 2 ^ k in
+  let h := 2 ^ (k - 1) in
+  let q' := if orb (h <? r) (andb (r =? h) (Z.odd q)) then q + 1 else q in
+  Z.sgn z * (q' * 2 ^ k).
+
+(* double Integer::operator % (const double l) const
+     if (l>0) res = static_cast<double>(this->operator%( static_cast<uint64_t>(l) ) );
+     else     res = static_cast<double>(this->operator%( static_cast<uint64_t>(-l) ) );
+   The double l is given as the dyadic K / 2^s (s >= 0 fractional bits); static_cast<uint64_t> truncates
+   (defined for an integer part < 2^64).  op_mod_d: integer-valued l (s = 0); op_mod_dx: s = 4. *)
+Definition op_mod_dfrac (this K s : Z) : Z :=
+  if 0 <? K then round53 (op_mod_ul this (to_u64 (K / 2 ^ s)))
+  else round53 (op_mod_ul this (to_u64 ((- K) / 2 ^ s))).
+Definition op_mod_d (this l : Z) : Z := op_mod_dfrac this l 0.
+Definition op_mod_dx (this K : Z) : Z := op_mod_dfrac this K 4.
 
 (* Integer operator % (const int32_t/int64_t/uint32_t/uint64_t l, const Integer& n) { return Integer(l) % n; } *)
 Definition w_mod_I (l n : Z) : Z := op_mod_I l n.
